@@ -163,3 +163,69 @@ def tucker_printing(E, alg, shape):
             E.eq(Tb.factor_matrices[n], O.cells(np.asarray(Ta.factor_matrices[n])), "same factors")
         E.eq(ob_["fit"], oa["fit"], "same fit")
 
+
+
+def _apr(E, X, K0, alg, **kw):
+    with contextlib.redirect_stdout(io.StringIO()):
+        M, _, out = ttb.cp_apr(X, K0.ncomponents, algorithm=alg, init=K0, **kw)
+    return M, out
+
+
+def _apr_guess(E, shape, R, w=None, zero=True):
+    """starting guess for CP-APR: concrete non-negative factors (an exact zero in factor 0 when R == 2); weights
+    concrete, or a concrete vector scaled by the symbolic positive number w"""
+    from symx import npenv
+    base = {(2, 1): [[3.0], [1.0]], (3, 1): [[2.0], [1.0], [1.0]], (2, 2): [[3.0, 0.0 if zero else 1.0], [2.0, 1.0]], (3, 2): [[1.0, 2.0], [2.0, 1.0], [1.0, 1.0]]}
+    fs = [E.const(np.array(base[(s, R)])[:: (1 if k % 2 == 0 else -1)].copy()) for k, s in enumerate(shape)]
+    lam = [2.0, 3.0][:R]
+    if w is None:
+        return ttb.ktensor(fs, E.const(np.array(lam)), copy=False)
+    ws = [w * v for v in lam]
+    return ttb.ktensor(fs, (npenv.obj_array(ws) if E.sym else np.array(ws, dtype=float)), copy=False)
+
+
+def _same_apr(E, Ma, oa, Mb, ob_, label):
+    _same_model(E, Ma, Mb, label)
+    E.true(len(oa["kktViolations"]) == len(ob_["kktViolations"]), f"{label}: same number of outer iterations")
+    if len(oa["kktViolations"]) == len(ob_["kktViolations"]):
+        E.eq(oa["kktViolations"], O.cells(ob_["kktViolations"]), f"{label}: same KKT history")
+        E.eq(oa["nInnerIters"], O.cells(ob_["nInnerIters"]), f"{label}: same inner iteration counts")
+    E.eq(oa["obj"], ob_["obj"], f"{label}: same objective")
+
+
+@ob("C18", params=[dict(alg="mu", R=1, iters=2, sym="w"), dict(alg="mu", R=1, iters=2, sym="x"), dict(alg="mu", R=2, iters=2, sym="w")], max_paths=6000, wall_s=300, validate=False, canon=True,
+    bounds="CP-APR (MU), 2x2 count data with a zero; guess with concrete factors (one exact zero in factor 0 for R = 2); ONE symbolic positive input: "
+           "either the scale w of the guess's weights or the data entry x = X[0,0]; 2 outer iterations of one inner iteration each; printitn 0 vs 1; "
+           "log uninterpreted; rational functions kept in canonical form (symx/poly.py)")
+def cp_apr_printing(E, alg, R, iters, sym):
+    """CP-APR with printing off / on: same model, KKT history, inner iteration counts and objective"""
+    vals = E.const(np.array([[3.0, 0.0], [1.0, 2.0]]))
+    w = None
+    if sym == "x":
+        vals[0, 0] = E.real("x", positive=True)
+    else:
+        w = E.real("w", positive=True)
+    X = ttb.tensor(vals, copy=False)
+    K0 = _apr_guess(E, (2, 2), R, w)
+    Ma, oa = _apr(E, X, K0.copy(), alg, maxiters=iters, maxinneriters=1, printitn=0)
+    Mb, ob_ = _apr(E, X, K0.copy(), alg, maxiters=iters, maxinneriters=1, printitn=1)
+    _same_apr(E, Ma, oa, Mb, ob_, "printitn 0 vs 1")
+
+
+@ob("C18", params=[dict(alg=a, R=1, sym="w", inner=i) for a in ("mu", "pdnr", "pqnr") for i in (1, 2)], max_paths=6000, wall_s=300, validate=False, canon=True,
+    bounds="CP-APR (MU / PDNR / PQNR), 2x2 count data with an empty row held dense and sparse; rank-1 guess with concrete positive factors and weights scaled by ONE symbolic "
+           "positive number w; 1 outer iteration, 2 inner iterations; log uninterpreted; canonical rational functions")
+def cp_apr_dense_vs_sparse(E, alg, R, sym, inner):
+    """CP-APR on a dense tensor and on the sparse tensor holding the same array: same model, KKT history, inner iteration counts, objective"""
+    vals = E.const(np.array([[3.0, 2.0], [0.0, 0.0]]))
+    w = None
+    if sym == "x":
+        vals[0, 0] = E.real("x", positive=True)
+    else:
+        w = E.real("w", positive=True)
+    Xd = ttb.tensor(vals, copy=False)
+    Xs = Xd.to_sptensor()
+    K0 = _apr_guess(E, (2, 2), R, w, zero=False)
+    Ma, oa = _apr(E, Xd, K0.copy(), alg, maxiters=1, maxinneriters=inner, printitn=0)
+    Mb, ob_ = _apr(E, Xs, K0.copy(), alg, maxiters=1, maxinneriters=inner, printitn=0)
+    _same_apr(E, Ma, oa, Mb, ob_, "dense vs sparse")
